@@ -119,7 +119,7 @@ def run_case(cs):
     # the product location class x invocation form x listing order is sampled (a seeded change may need two of them together)
     variants = []
     for _ in range(rng.randint(3, 5)):
-        loc = rng.choice(["plain", "asc-parent", "pattern-parent", "deep", "unicode-parent", "symlink-parent", "bracket-parent", "very-deep"])
+        loc = rng.choice(["plain", "asc-parent", "pattern-parent", "deep", "unicode-parent", "symlink-parent", "bracket-parent", "very-deep", "nonutf8-parent"])
         form = rng.choice(["abs", "abs", "slash", "rel-root", "rel-dot-slash", "rel-dot", "slashes", "dotdot", "rel-dotdot"])
         lst = rng.choice(["sorted", "permuted"])
         if (loc, form, lst) == ("plain", "abs", "sorted"):
@@ -144,6 +144,9 @@ def run_case(cs):
             root = os.path.join(d, "v%d" % vi, rng.choice(["Reel [A001]", "[abc]", "Day [1-3] {x,y}", "what?*"]), "root")
         elif loc == "deep":
             root = os.path.join(d, "v%d" % vi, "a", "b b", "c", "d", "root")
+        elif loc == "nonutf8-parent":
+            # a volume / folder name in a legacy encoding: bytes that are not UTF-8
+            root = os.path.join(d, "v%d" % vi, os.fsdecode(rng.choice([b"vol_\xff\xfe", b"Aufnahme \xe4\xf6", b"\x80clips"])), "root")
         elif loc == "very-deep":
             # more than twenty folders above the root (mounted volume / project / date / card / copy ...)
             root = os.path.join(d, "v%d" % vi, *["L%02d" % i for i in range(rng.randint(14, 22))], "root")
